@@ -280,6 +280,37 @@ func c09Exec(c c09Case, bases []c09Base, meta *xt.Node) c09Result {
 		}
 		w.Store.AddUser(&world.User{ID: "u-alice", Username: "alice", Email: "alice@example.com"})
 		record(w.Do(b.send(w, renderTree(t, b.constructed))))
+	case "history":
+		// two requests on ONE provider: c.Base then c.Key (base names; "callback" = login callback of a done request)
+		w := c09World("rsa")
+		res.Labels = []string{"history", "first=" + c.Base, "second=" + c.Key}
+		do := func(name string) *world.Reply {
+			if name == "callback" {
+				return callbackReq(w, "", "r-done")
+			}
+			if name == "metadata" {
+				return w.Do(world.NewRequest("GET", "", w.Cfg.MetadataPath(), nil, "", nil))
+			}
+			for _, b := range bases {
+				if b.name == name {
+					return w.Do(b.send(w, renderTree(b.tree, b.constructed)))
+				}
+			}
+			panic("c09 history: " + name)
+		}
+		if r1 := do(c.Base); r1.Panic != "" {
+			record(r1)
+			return res
+		}
+		record(do(c.Key))
+	case "rawquery":
+		// a validly signed redirect request whose raw query string carries odd segments
+		w := c09World("rsa")
+		doc := msg.Authn(msg.AuthnOpts{Issuer: msg.SPA().EntityID}).Render(xt.Style{})
+		raw := msg.Redirect{XML: doc, RelayState: c.Body, SigAlg: verify.AlgRSASHA256, Key: world.SPA}.RawQuery()
+		raw = strings.Replace(c.Key, "Q", raw, 1)
+		res.Labels = []string{"rawquery=" + c.Key, "relay=" + c.Body}
+		record(w.Do(world.RawRequest("GET", "", w.Cfg.SSOPath(), raw, "", nil)))
 	case "meta-edit":
 		t, labels := applyEdits(meta, c.Edits...)
 		for _, l := range labels {
@@ -341,7 +372,7 @@ func init() { Registry["C09"] = runC09 }
 func runC09(ctx Ctx) int {
 	world.PinClock()
 	run := ev.NewRun("C09")
-	run.Rule = "every single (quick) / single+pair (thorough) structural edit {delete,duplicate,empty element; delete,empty,duplicate attribute} of 7 full-featured base messages and of an SP metadata document; every prefix and every single-byte substitution by {NUL,<,>,\",&,0xFF} of each base document; endpoint x method x body grid; SigAlg x registered key type; certificate variants; every base message and single edit against 5 registered-SP metadata shapes lacking optional parts (no ACS / no SLO / no keys / bare / attribute-less ACS). One execution = one fresh provider + one real ServeHTTP / NewServiceProvider call under recover()"
+	run.Rule = "every single (quick) / single+pair (thorough) structural edit {delete,duplicate,empty element; delete,empty,duplicate attribute} of 7 full-featured base messages and of an SP metadata document; every prefix and every single-byte substitution by {NUL,<,>,\",&,0xFF} of each base document; endpoint x method x body grid; SigAlg x registered key type; certificate variants; 81 two-request histories on one provider (9 request kinds squared); 26 odd raw-query shapes around a validly signed redirect request; every base message and single edit against 5 registered-SP metadata shapes lacking optional parts (no ACS / no SLO / no keys / bare / attribute-less ACS). One execution = one fresh provider + one real ServeHTTP / NewServiceProvider call under recover()"
 	run.Assume = []string{"byte-level corruption beyond edit distance 1 and coverage-guided fuzzing (sampling) are outside this check", "a DSA certificate (not constructible with crypto/x509) is not among the registered key types; DSA SigAlg URIs are exercised against RSA/ECDSA/Ed25519/no key"}
 	bases := c09Bases()
 	meta := c09MetaBase()
@@ -408,6 +439,20 @@ func runC09(ctx Ctx) int {
 			for _, e := range allEdits(b.tree) {
 				cases = append(cases, c09Case{Fam: "sp-shape", Base: b.name, Key: shape, Edits: []edit{e}})
 			}
+		}
+	}
+	hnames := []string{"callback", "metadata"}
+	for _, b := range bases {
+		hnames = append(hnames, b.name)
+	}
+	for _, h1 := range hnames {
+		for _, h2 := range hnames {
+			cases = append(cases, c09Case{Fam: "history", Base: h1, Key: h2})
+		}
+	}
+	for _, shape := range []string{"Q&", "&Q", "Q&debug", "Q&&", "Q&=x", "debug&Q", "Q&%zz", "Q&a=%zz", "Q;x=1", "?Q", "Q&SAMLRequest", "Q&RelayState", "Q&Signature&SigAlg"} {
+		for _, relay := range []string{"", "rs"} {
+			cases = append(cases, c09Case{Fam: "rawquery", Key: shape, Body: relay})
 		}
 	}
 	cases = append(cases, c09Case{Fam: "meta-edit"})
